@@ -60,7 +60,7 @@ func singleExpanded(exp *ed25519.ExpandedPublicKey, msg, sig []byte, o *ed25519.
 
 func buildPool(r *mon.Run) {
 	rng := r.Rng("c09/pool")
-	cases := gen.EdFamilies(rng, r.Pick(6, 30), r.Pick(20, 200))
+	cases := gen.EdFamilies(rng, r.Pick(12, 40), r.Pick(60, 300))
 	for _, c := range cases {
 		it := item{c: c, pk: mon.UnHex(c.PK), msg: mon.UnHex(c.Msg), sig: mon.UnHex(c.Sig)}
 		it.exp, _ = ed25519.NewExpandedPublicKey(it.pk)
@@ -455,7 +455,7 @@ func main() {
 		sizes = append(sizes, 249, 250, 251, 399, 400, 401, 1000)
 	}
 	var cases []Case
-	for rep := 0; rep < r.Pick(2, 30); rep++ {
+	for rep := 0; rep < r.Pick(6, 60); rep++ {
 		for _, s := range sizes {
 			for _, mode := range []string{"valid", "mixed"} {
 				if s >= 249 && rep > 1 {
@@ -465,7 +465,7 @@ func main() {
 			}
 		}
 	}
-	for i := 0; i < r.Pick(60, 2000); i++ {
+	for i := 0; i < r.Pick(400, 10000); i++ {
 		cases = append(cases, Case{Kind: "cache", Stream: fmt.Sprintf("c09/cache/%d", i)})
 	}
 	_ = c
